@@ -355,6 +355,13 @@ HAND_SPECS = [
                {"name": "leaf", "domain": "dom", "nin": 1, "nout": 1,
                 "body": {"stmts": [["op", "relu", 17, [0]]], "outs": [1]}}],
      "models": []},
+    # two call sites whose bodies differ but have the same number of nodes
+    {"args": ["f"], "inputs": [["x", 0]],
+     "stmts": [["call", 0, [0], 1], ["call", 0, [1], 2], ["op", "add", 17, [1, 2]]],
+     "outputs": [["z", 3]], "drop": False,
+     "funcs": [{"name": "f", "domain": "dom", "nin": 1, "nout": 1,
+                "body": {"stmts": [["op", "relu", 17, [0]]], "outs": [1]}}],
+     "models": []},
     # mixed opset versions inside a function body
     {"args": ["f"], "inputs": [["x", 0]],
      "stmts": [["call", 0, [0]], ["op", "identity", 21, [1]]],
